@@ -4,8 +4,8 @@ H = "vf.harness.walk"
 FUNCS = ["TraceVisitor.visit_BlockStatement", "TraceVisitor.visit_LoopStatement", "OutputParser.process_trace", "parse_jaqal_output_list",
          "IndependentSubcircuitsEmulatorWalker.process_trace", "DiscoverSubcircuits.visit_*", "ReadoutSubcircuit.accept_readout", "run_jaqal_circuit"]
 META = {
-    "bounds": {"quick": "4 nesting shapes (sections in nested loops to depth 3, macro-wrapped sections, empty loops), every loop count 0..2 (literal and let-valued), "
-                        "3 spellings, hardware outputs 0..3 as int and as bit string",
+    "bounds": {"quick": "4 nesting shapes (sections in nested loops to depth 3, macro-wrapped sections, empty loops), loop counts 0..2 / 0..2 / 0..1 (literal, let-valued and "
+                        "overridden), mixed spelling, fixed hardware outputs given as int and as bit string",
                "thorough": "loop counts 0..3, all 8 spellings of the first three sections"},
     "assumptions": ["numpy.random.choice is replaced by a stub that returns an arbitrary index constrained by its documented contract (0 <= k < n, p[k] > 0)",
                     "Visitor.visit is wrapped with a fuel counter (20000 visits); exhausting it is reported as non-termination",
@@ -14,8 +14,8 @@ META = {
 }
 
 
-def _pre(nmax):
-    return [f"0 <= n1 <= {nmax}", f"0 <= n2 <= {nmax}", f"0 <= n3 <= {nmax}"]
+def _pre(nmax, q=False):
+    return [f"0 <= n1 <= {nmax}", f"0 <= n2 <= {nmax}", f"0 <= n3 <= {1 if q else nmax}"]
 
 
 def spelling_jobs(tier):
@@ -26,7 +26,7 @@ def spelling_jobs(tier):
         for spell in ((21,) if q else (63, 21, 42, 7)):
             for lets in (False, True):
                 out.append(CH(name=f"c09_spelling_s{shape}_sp{spell}_{'let' if lets else 'lit'}", base="c09_spelling", func=f"{H}:c09_spelling",
-                              params=[("n1", "int"), ("n2", "int"), ("n3", "int")], pre=_pre(nmax), fixed={"shape": shape, "spell": spell, "lets": lets},
+                              params=[("n1", "int"), ("n2", "int"), ("n3", "int")], pre=_pre(nmax, q), fixed={"shape": shape, "spell": spell, "lets": lets},
                               timeout=400 if q else 1500, functions=FUNCS + ["expand_subcircuits", "TraceSerializer"],
                               note="the program with every section written subcircuit{B} and with the sections in `spell` written prepare_all;B;measure_all: "
                                    "same subcircuit count, emulated and parsed visit order, outcomes, probabilities and serialised gates"))
@@ -38,23 +38,23 @@ def jobs(tier):
     nmax = 2 if q else 3
     out = []
     for shape in range(4):
-        for spell in ((0, 21) if q else (0, 63, 21, 42)):
+        for spell in ((21,) if q else (0, 63, 21, 42)):
             for lets in (False, True):
                 out.append(CH(name=f"c08_outputs_s{shape}_sp{spell}_{'let' if lets else 'lit'}", base="c08_outputs", func=f"{H}:c08_outputs",
                               params=[("n1", "int"), ("n2", "int"), ("n3", "int"), ("o0", "int")] + ([] if q else [("o1", "int"), ("o2", "int")]),
-                              pre=_pre(nmax) + (["o0 == 0 or o0 == 3"] if q else ["0 <= o0 <= 3", "0 <= o1 <= 3", "0 <= o2 <= 3"]),
+                              pre=_pre(nmax, q) + (["o0 == 3"] if q else ["0 <= o0 <= 3", "0 <= o1 <= 3", "0 <= o2 <= 3"]),
                               fixed=dict({"shape": shape, "spell": spell, "lets": lets, "ov": False}, **({"o1": 1, "o2": 2} if q else {})),
                               timeout=400 if q else 1500, functions=FUNCS,
                               note="parse_jaqal_output_list: one readout per visit of the unrolled program, in order, attributed by flat index; "
                                    "as_int/as_str as supplied; per-subcircuit readouts and relative frequencies count its own readouts"))
                 if lets and spell == 21:
                     out.append(CH(name=f"c08_outputs_s{shape}_override", base="c08_outputs", func=f"{H}:c08_outputs",
-                                  params=[("n1", "int"), ("n2", "int"), ("n3", "int")], pre=_pre(nmax),
+                                  params=[("n1", "int"), ("n2", "int"), ("n3", "int")], pre=_pre(nmax, q),
                                   fixed={"shape": shape, "spell": spell, "lets": True, "ov": True, "o0": 1, "o1": 2, "o2": 0}, timeout=400 if q else 1500, functions=FUNCS + ["fill_in_let"],
                                   note="loop counts are lets declared with other values and overridden through fill_in_let: visits follow the overriding counts"))
                 out.append(CH(name=f"c08_emulate_s{shape}_sp{spell}_{'let' if lets else 'lit'}", base="c08_emulate", func=f"{H}:c08_emulate",
                               params=[("n1", "int"), ("n2", "int"), ("n3", "int"), ("p0", "int")] + ([] if q else [("p1", "int")]),
-                              pre=_pre(nmax) + (["p0 == 1 or p0 == 2"] if q else ["0 <= p0 <= 3", "0 <= p1 <= 3"]),
+                              pre=_pre(nmax, q) + (["p0 == 2"] if q else ["0 <= p0 <= 3", "0 <= p1 <= 3"]),
                               fixed=dict({"shape": shape, "spell": spell, "lets": lets}, **({"p1": 3} if q else {})),
                               timeout=400 if q else 1500, functions=FUNCS,
                               note="run_jaqal_circuit with numpy.random.choice stubbed: terminates within fuel, one readout per visit in order, every sample has "
